@@ -59,6 +59,31 @@ fn convert_check(a: &'static Unit, b: &'static Unit, x: f64) -> Verdict {
     }
 }
 
+/// magnitudes at the far ends of the range: success still depends on the dimension only, the result is a number
+/// (not NaN) and, where it is a normal f64, the physical conversion within 1e-6
+fn extreme_check(a: &'static Unit, b: &'static Unit) -> Verdict {
+    let (Some(da), Some(dbb)) = (dbu(a), dbu(b)) else { return Verdict::Pass };
+    let same_dim = da.dim == dbb.dim;
+    for x in [1e-300, -1e-305, 1e300, f64::INFINITY, f64::NEG_INFINITY] {
+        match guarded(|| a.convert_to(x, b)) {
+            Ok(Ok(y)) => {
+                let expect = ((x * da.scale + da.offset) - dbb.offset) / dbb.scale;
+                let bad = !same_dim || (y.is_nan() && !expect.is_nan()) || (expect.is_finite() && expect.abs() >= 1e-300 && expect.abs() <= 1e300 && !((y - expect).abs() <= 1e-6 * expect.abs()));
+                if bad {
+                    return Verdict::fail("C16:convert:extreme-magnitude", format!("{} -> {}: convert_to({x:e}) = Ok({y:e}), physical conversion gives {expect:e} (same dimension: {same_dim})", a.name(), b.name()));
+                }
+            }
+            Ok(Err(_)) => {
+                if same_dim {
+                    return Verdict::fail("C16:convert:same-dimension-rejected", format!("{} -> {}: same dimension but convert_to({x:e}) fails", a.name(), b.name()));
+                }
+            }
+            Err(p) => return Verdict::fail("C16:convert:panic", p.msg),
+        }
+    }
+    Verdict::Pass
+}
+
 fn muldiv_check(a: &'static Unit, b: &'static Unit, rec: &mut Rec) -> Verdict {
     let (Some(da), Some(dbb)) = (dbu(a), dbu(b)) else { return Verdict::Pass };
     for (op, res) in [("mul", guarded(|| a * b)), ("div", guarded(|| a / b))] {
@@ -186,6 +211,11 @@ fn enumerate(ctx: &mut Ctx) {
                                 break;
                             }
                         }
+                        rec.evals += 5;
+                        let v = extreme_check(a, b);
+                        if v.is_fail() && fails.len() < 4 {
+                            fails.push((v, json!({"a": a.name(), "b": b.name()})));
+                        }
                         if interesting {
                             rec.nontrivial(key_of(&format!("conv:{}:{}", a.name(), b.name())));
                             rec.class("convert:same-dimension-pair");
@@ -250,10 +280,71 @@ fn check_arith(c: &Arith, rec: &mut Rec) -> Verdict {
     Verdict::Pass
 }
 
+/// Unit products and quotients asked by several threads at once, each thread repeating its own pair: every answer is
+/// the answer a lone thread gets (the look-up shares no mutable state that one thread could see half-updated).
+fn concurrent_muldiv(ctx: &mut Ctx) {
+    let table = unit_table();
+    let name_of = |r: &Result<&'static Unit, String>| match r {
+        Ok(u) => format!("Ok({})", u.name()),
+        Err(_) => "Err".to_string(),
+    };
+    // pairs with a product or quotient in the database, found single-threaded (they are few: ~110 of ~196 000)
+    let mut pairs: Vec<(&'static Unit, &'static Unit, bool, String)> = vec![];
+    for (_, a) in table.iter() {
+        for (_, b) in table.iter() {
+            for mul in [true, false] {
+                let r = if mul { *a * *b } else { *a / *b };
+                if r.is_ok() {
+                    pairs.push((*a, *b, mul, name_of(&r.map_err(|e| e.to_string()))));
+                }
+            }
+        }
+    }
+    if pairs.len() < 8 {
+        return;
+    }
+    let rounds = ctx.tier.pick(4, 40) as usize;
+    for round in 0..rounds {
+        let threads = 8usize;
+        let barrier = std::sync::Barrier::new(threads);
+        let bad: Vec<String> = std::thread::scope(|s| {
+            let hs: Vec<_> = (0..threads)
+                .map(|t| {
+                    let (pairs, barrier) = (&pairs, &barrier);
+                    s.spawn(move || {
+                        let (a, b, mul, want) = &pairs[(round * 13 + t * 7) % pairs.len()];
+                        barrier.wait();
+                        for _ in 0..20_000 {
+                            let r = if *mul { *a * *b } else { *a / *b };
+                            let got = match &r {
+                                Ok(u) => format!("Ok({})", u.name()),
+                                Err(_) => "Err".to_string(),
+                            };
+                            if &got != want {
+                                return Some(format!("{} {} {} = {got}, a lone thread gets {want}", a.name(), if *mul { "*" } else { "/" }, b.name()));
+                            }
+                        }
+                        None
+                    })
+                })
+                .collect();
+            hs.into_iter().filter_map(|h| h.join().ok().flatten()).collect()
+        });
+        ctx.rec.evals += 1;
+        ctx.rec.class("concurrent:8-threads-mul/div");
+        ctx.rec.nontrivial(key_of(&format!("concurrent-muldiv:{round}")));
+        if let Some(msg) = bad.first() {
+            ctx.report("concurrent-muldiv", Verdict::fail("C16:mul-div:concurrent", msg.clone()), json!({"round": round}));
+            break;
+        }
+    }
+}
+
 pub fn run(ctx: &mut Ctx) {
-    ctx.rule("enumerated exhaustively: all ordered pairs of database units x 7 magnitudes: convert_to is Ok iff units.txt gives both the same dimension vector, equals ((x*sa+oa)-ob)/sb within 1e-9 relative to the operands, and converts back to x; a*b and a/b: when Ok the result is a database unit with dimension = sum/difference and scale within 1e-3 of product/quotient; generated: pairs of Numbers over all units: + and - keep the common unit and the exact sum/difference, fail for two different units (with one bare operand: if accepted, the result carries the one unit in play and the exact value), * and / agree with the unit operators; non-trivial: different units of one dimension / Ok product or quotient / generated Number pair; distinct by names");
+    ctx.rule("enumerated exhaustively: all ordered pairs of database units x 7 magnitudes (+ 5 extreme ones: 1e-300, -1e-305, 1e300, +-INF, checked for success, not-NaN and 1e-6 agreement where the result is a normal number): convert_to is Ok iff units.txt gives both the same dimension vector, equals ((x*sa+oa)-ob)/sb within 1e-9 relative to the operands, and converts back to x; a*b and a/b: when Ok the result is a database unit with dimension = sum/difference and scale within 1e-3 of product/quotient, and eight threads each repeating its own pair 20 000 times get the lone-thread answer; generated: pairs of Numbers over all units: + and - keep the common unit and the exact sum/difference, fail for two different units (with one bare operand: if accepted, the result carries the one unit in play and the exact value), * and / agree with the unit operators; non-trivial: different units of one dimension / Ok product or quotient / generated Number pair; distinct by names");
     ctx.assume("dimension, scale and offset come from unit-gen/units.txt, not from the table under test; tolerance 1e-9 relative is ~7 orders above the worst rounding observed");
     enumerate(ctx);
+    concurrent_muldiv(ctx);
     let n = unit_table().len();
     ctx.run_sub::<Arith>(
         "number-arith",
@@ -272,6 +363,15 @@ pub fn run(ctx: &mut Ctx) {
 
 pub fn replay(kind: &str, case: &J, rec: &mut Rec) -> Verdict {
     match kind {
+        "concurrent-muldiv" => {
+            let mut c = Ctx::new("C16", crate::runner::Tier::Quick, 1);
+            concurrent_muldiv(&mut c);
+            if c.violations.is_empty() {
+                Verdict::Pass
+            } else {
+                Verdict::fail("C16:mul-div:concurrent", "unit products / quotients differ between threads")
+            }
+        }
         "number-arith" => Arith::from_json(case).map(|c| check_arith(&c, rec)).unwrap_or_else(|e| Verdict::fail("infra:bad-replay", e)),
         "unit-pair" => {
             let find = |n: &str| unit_table().iter().find(|(_, u)| u.name() == n).map(|(_, u)| *u);
@@ -282,6 +382,10 @@ pub fn replay(kind: &str, case: &J, rec: &mut Rec) -> Verdict {
                         if v.is_fail() {
                             return v;
                         }
+                    }
+                    let v = extreme_check(a, b);
+                    if v.is_fail() {
+                        return v;
                     }
                     muldiv_check(a, b, rec)
                 }
